@@ -193,6 +193,10 @@ class Gen(object):
             op = r.choice(['+', '-', '*', 'div', 'mod', '+', '-'])
             self.f('arith:' + op)
             a, b = self.e_num(depth + 1), self.e_num(depth + 1)
+            if r.random() < 0.06:
+                # '.' and '..' are complete tokens: an operator (or an operator name) may follow them directly
+                self.f('operator-after-dot-without-space')
+                return '%s%s%s%s' % (r.choice(['.', '..', './..', '*/.']), op, ' ' if op in ('div', 'mod') or r.random() < 0.5 else '', b)
             if op in ('div', 'mod') and (a[-1] in ')]' or re.match(r'^[0-9]*\.?[0-9]+$|^[0-9]+\.$', a)) and r.random() < 0.2:
                 # no white space is needed between a number (or a bracket) and an operator name
                 self.f('operator-name-without-space')
@@ -312,6 +316,9 @@ class Gen(object):
         if k < 0.68:
             op = r.choice(['and', 'or'])
             self.f(op)
+            if r.random() < 0.06:
+                self.f('operator-after-dot-without-space')
+                return '%s%s %s' % (r.choice(['.', '..', './..', '*/.']), op, self.e_bool(depth + 1))
             return '%s %s %s' % (self.e_bool(depth + 1), op, self.e_bool(depth + 1))
         if k < 0.75:
             self.f('not')
